@@ -174,14 +174,18 @@ def run_fork_child(b):
             child.__dict__[k] = 0
     vfs.FAKE_OS.fork_hook = lambda: 0
     vfs.FAKE_OS.exit_hook = _child_exit
-    code = 0
+    status = 0
     try:
         child.serialize(data, sid)
     except ChildExit as e:
-        code = e.code
+        status = (e.code & 0xff) << 8        # wait status of a normal exit
+    except vfs.Killed:
+        status = 9                           # the child itself was killed (SIGKILL) in the middle of its writes
     finally:
         vfs.FAKE_OS.fork_hook = fork_parent_hook
-    b.extra['childdone'] = code
+    b.vfs.dead = False
+    b.vfs.kill_at = None
+    b.extra['childdone'] = status
 
 
 def _child_exit(code):
@@ -831,6 +835,9 @@ def run_event(b, ev, cfg, kill_at=None):
             sid = ev[1]
             getattr(b.so, ev[2])(sid, *ev[3], callback=functools.partial(b.rec.cb, sid), **dict(ev[4]))
         elif kind == 'child':
+            if len(ev) > 1:
+                b.vfs.kill_at = ev[1]        # the CHILD process is killed before this mutation, the node lives on
+                b.vfs.on_kill = None
             run_fork_child(b)
         elif kind == 'bop':
             # ('bop', sid, consumer index, method, args): a call on a battery
@@ -1039,6 +1046,9 @@ class ClusterModel(object):
                 evs.append(('J', n))
             if self.cfg.use_fork and len(s.extra) > 2 and any(k == 'child' for k, _ in s.extra):
                 evs.append(('Cf', n))
+                if bud['Q'] > 0:
+                    for kk in range(self.st.step(w.nk(n), ('child',))[4]):
+                        evs.append(('Ck', n, kk))
             if bud['V'] > 0:
                 for v in self.cfg.versions:
                     evs.append(('V', n, v))
@@ -1257,6 +1267,9 @@ class ClusterModel(object):
             return bud and self.node_step(w, ev[1], ('compact',), budget=bud, label=ev)
         if kind == 'Cf':
             return self.node_step(w, ev[1], ('child',), label=ev)
+        if kind == 'Ck':
+            bud = self.spend(w, 'Q')
+            return bud and self.node_step(w, ev[1], ('child', ev[2]), budget=bud, label=ev)
         if kind == 'V':
             bud = self.spend(w, 'V') if ev[-1] != 'free' else w.budget
             return bud and self.node_step(w, ev[1], ('setver', ev[2], ('v', w.nsub)), budget=bud, nsub=w.nsub + 1, label=ev)
